@@ -1,7 +1,8 @@
-package refcodec
+package peer
 
 // Reference encoder / decoder for CEDAR typed values and ClassAds-as-strings
-// (added for C03 / internal/peer). Written from protocol/CEDAR_PROTOCOL.md
+// (kept in this package rather than in refcodec so that its generic names cannot
+// clash with other builders' additions there). Written from protocol/CEDAR_PROTOCOL.md
 // ("Type Serialization", "Strings") and the HTCondor format comments:
 //
 //   * every integer is 8 bytes, big-endian, two's complement;
@@ -182,7 +183,7 @@ type Reader struct {
 	Enc bool // the payload was sent while the stream was encrypting
 }
 
-var ErrShort = errors.New("refcodec: message too short")
+var ErrShort = errors.New("peer: message too short")
 
 func (r *Reader) Left() int { return len(r.B) - r.Off }
 
@@ -202,7 +203,7 @@ func (r *Reader) String() (string, error) {
 			return "", err
 		}
 		if n < 0 || int(n) > r.Left() {
-			return "", fmt.Errorf("refcodec: string length %d exceeds message", n)
+			return "", fmt.Errorf("peer: string length %d exceeds message", n)
 		}
 		s := r.B[r.Off : r.Off+int(n)]
 		r.Off += int(n)
@@ -218,7 +219,7 @@ func (r *Reader) String() (string, error) {
 			return s, nil
 		}
 	}
-	return "", fmt.Errorf("refcodec: unterminated string")
+	return "", fmt.Errorf("peer: unterminated string")
 }
 
 // ReadAd decodes a ClassAd.
@@ -229,7 +230,7 @@ func (r *Reader) ReadAd() (Ad, error) {
 		return a, err
 	}
 	if n < 0 || n > 10000 {
-		return a, fmt.Errorf("refcodec: implausible attribute count %d", n)
+		return a, fmt.Errorf("peer: implausible attribute count %d", n)
 	}
 	for i := int64(0); i < n; i++ {
 		s, err := r.String()
@@ -238,7 +239,7 @@ func (r *Reader) ReadAd() (Ad, error) {
 		}
 		k := strings.Index(s, "=")
 		if k < 0 {
-			return a, fmt.Errorf("refcodec: attribute without '=': %q", s)
+			return a, fmt.Errorf("peer: attribute without '=': %q", s)
 		}
 		a.Attrs = append(a.Attrs, Attr{strings.TrimSpace(s[:k]), strings.TrimSpace(s[k+1:])})
 	}
